@@ -8,7 +8,7 @@ Key locality, part 4 – the **writes-only theorem** of the calculation engine: 
 namespace Hex
 variable {F : Type} [PyF F]
 
-theorem bind_ok {α β : Type} {m : PyM α} {g : α → PyM β} {b : β} (h : (m >>= g) = .ok b) :
+theorem Writes.bind_ok {α β : Type} {m : PyM α} {g : α → PyM β} {b : β} (h : (m >>= g) = .ok b) :
     ∃ a, m = .ok a ∧ g a = .ok b := by
   cases m with
   | error e => cases h
@@ -16,7 +16,7 @@ theorem bind_ok {α β : Type} {m : PyM α} {g : α → PyM β} {b : β} (h : (m
 
 omit [PyF F] in
 /-- a left fold of writes that each stay within `names` stays within `names` -/
-theorem foldlM_stripEq {α : Type} {names : List String} (step : List (Candle F) → α → PyM (List (Candle F)))
+theorem Writes.foldlM_stripEq {α : Type} {names : List String} (step : List (Candle F) → α → PyM (List (Candle F)))
     (hstep : ∀ cs a cs', step cs a = .ok cs' → StripEq names cs cs') :
     ∀ (l : List α) (cs cs' : List (Candle F)), l.foldlM step cs = .ok cs' → StripEq names cs cs' := by
   intro l
@@ -25,7 +25,7 @@ theorem foldlM_stripEq {α : Type} {names : List String} (step : List (Candle F)
   | cons a r ih =>
     intro cs cs' h
     rw [List.foldlM_cons] at h
-    obtain ⟨cs1, h1, h2⟩ := bind_ok h
+    obtain ⟨cs1, h1, h2⟩ := Writes.bind_ok h
     exact (hstep cs a cs1 h1).trans (ih cs1 cs' h2)
 
 /-- the six statements proved together by induction on the fuel -/
@@ -47,7 +47,7 @@ theorem StripEq.ofSubs {ind : Ind F} {cs cs' : List (Candle F)}
   h.mono ind.subs_names_sub
 
 /-- one `_calculate_reading` + `_set_reading` -/
-theorem readSet_stripEq {f : Nat} (ih : EngineLocal (F := F) f) (ind : Ind F) (cs cs1 cs' : List (Candle F))
+theorem Writes.readSet_stripEq {f : Nat} (ih : EngineLocal (F := F) f) (ind : Ind F) (cs cs1 cs' : List (Candle F))
     (i : Int) (v : Val F) (h1 : Hex.calcReading f ind cs i = .ok (v, cs1))
     (h2 : setReading ind.isSub ind.name cs1 i (v.roundBy ind.round) = .ok cs') :
     StripEq ind.allNames cs cs' :=
@@ -70,8 +70,8 @@ theorem engineLocal : ∀ f : Nat, EngineLocal (F := F) f := by
     · -- calculate
       intro ind cs cs' h
       rw [Hex.calculate] at h
-      obtain ⟨cs1, h1, h⟩ := bind_ok h
-      obtain ⟨cs2, h2, h3⟩ := bind_ok h
+      obtain ⟨cs1, h1, h⟩ := Writes.bind_ok h
+      obtain ⟨cs2, h2, h3⟩ := Writes.bind_ok h
       exact ((ih.calcSubs _ _ _ _ _ h1).ofSubs.trans (ih.calcLoop _ _ _ _ _ h2)).trans
         (ih.calcSubs _ _ _ _ _ h3).ofSubs
     · -- calcLoop
@@ -83,25 +83,25 @@ theorem engineLocal : ∀ f : Nat, EngineLocal (F := F) f := by
         · simp
       | succ n =>
         rw [Hex.calcLoop] at h
-        obtain ⟨c, _, h⟩ := bind_ok h
+        obtain ⟨c, _, h⟩ := Writes.bind_ok h
         dsimp only at h
         repeat' (split at h)
         all_goals first
-          | (obtain ⟨cs1, h1, h2⟩ := bind_ok h
+          | (obtain ⟨cs1, h1, h2⟩ := Writes.bind_ok h
              cases h1
              exact ih.calcLoop _ _ _ _ _ h2)
-          | (obtain ⟨⟨v, cs1⟩, h1, h⟩ := bind_ok h
-             obtain ⟨cs2, h2, h3⟩ := bind_ok h
-             exact (readSet_stripEq ih ind cs cs1 cs2 k v h1 h2).trans (ih.calcLoop _ _ _ _ _ h3))
+          | (obtain ⟨⟨v, cs1⟩, h1, h⟩ := Writes.bind_ok h
+             obtain ⟨cs2, h2, h3⟩ := Writes.bind_ok h
+             exact (Writes.readSet_stripEq ih ind cs cs1 cs2 k v h1 h2).trans (ih.calcLoop _ _ _ _ _ h3))
     · -- calculateIndex
       intro ind cs s e cs' h
       rw [Hex.calculateIndex] at h
-      obtain ⟨cs1, h1, h⟩ := bind_ok h
-      obtain ⟨cs2, h2, h3⟩ := bind_ok h
+      obtain ⟨cs1, h1, h⟩ := Writes.bind_ok h
+      obtain ⟨cs2, h2, h3⟩ := Writes.bind_ok h
       refine ((ih.calcSubs _ _ _ _ _ h1).ofSubs.trans ?_).trans (ih.calcSubs _ _ _ _ _ h3).ofSubs
-      refine foldlM_stripEq _ (fun cs i cs' hh => ?_) _ _ _ h2
-      obtain ⟨⟨v, cs1⟩, hh1, hh2⟩ := bind_ok hh
-      exact readSet_stripEq ih ind cs cs1 cs' i v hh1 hh2
+      refine Writes.foldlM_stripEq _ (fun cs i cs' hh => ?_) _ _ _ h2
+      obtain ⟨⟨v, cs1⟩, hh1, hh2⟩ := Writes.bind_ok hh
+      exact Writes.readSet_stripEq ih ind cs cs1 cs' i v hh1 hh2
     · -- calcSubs
       intro subs prior range cs cs' h
       cases subs with
@@ -113,7 +113,7 @@ theorem engineLocal : ∀ f : Nat, EngineLocal (F := F) f := by
         simp only [Hex.calcSubs] at h
         have hs : ∃ cs1, StripEq s.allNames cs cs1 ∧ Hex.calcSubs f rest prior range cs1 = .ok cs' := by
           repeat' (split at h)
-          all_goals (obtain ⟨cs1, h1, h2⟩ := bind_ok h; refine ⟨cs1, ?_, h2⟩)
+          all_goals (obtain ⟨cs1, h1, h2⟩ := Writes.bind_ok h; refine ⟨cs1, ?_, h2⟩)
           all_goals first
             | exact ih.calculateIndex _ _ _ _ _ h1
             | exact ih.calculate _ _ _ h1
@@ -127,16 +127,16 @@ theorem engineLocal : ∀ f : Nat, EngineLocal (F := F) f := by
       rw [Hex.calcReading] at h
       refine calcKind_stripEq (names := ind.allNames) ⟨?_, ?_⟩ ind _ ind.name_mem_names v cs' h
       · intro key v cs cs' hh
-        obtain ⟨m, hm, hh⟩ := bind_ok hh
+        obtain ⟨m, hm, hh⟩ := Writes.bind_ok hh
         exact (ih.setManagedReading m cs i v cs' hh).mono (Ind.getManaged_names hm)
       · intro key cs cs' hh
-        obtain ⟨m, hm, hh⟩ := bind_ok hh
+        obtain ⟨m, hm, hh⟩ := Writes.bind_ok hh
         exact (ih.calculateIndex m cs i (i + 1) cs' hh).mono (Ind.getManaged_names hm)
     · -- setManagedReading
       intro m cs i v cs' h
       rw [Hex.setManagedReading] at h
-      obtain ⟨cs1, h1, h⟩ := bind_ok h
-      obtain ⟨cs2, h2, h3⟩ := bind_ok h
+      obtain ⟨cs1, h1, h⟩ := Writes.bind_ok h
+      obtain ⟨cs2, h2, h3⟩ := Writes.bind_ok h
       exact ((ih.calcSubs _ _ _ _ _ h1).ofSubs.trans
         (setReading_stripEq m.isSub m.name m.name_mem_names cs1 cs2 i v h2)).trans
         (ih.calcSubs _ _ _ _ _ h3).ofSubs
